@@ -3,6 +3,7 @@ import Model.KN
 import Model.KNSpec
 import Proofs.KNStats
 import Proofs.KNAdjust
+import Proofs.KNCorpus2
 /-!
 # C05 — lmplz computes interpolated modified Kneser-Ney estimates
 
@@ -122,7 +123,39 @@ theorem stats_eq (cfg : Cfg) (full : List (Gram × Nat)) (h2 : 2 ≤ cfg.order)
     statsOf (adjustStream cfg full).adds.reverse i = countsOfCounts (Spec.ents cfg full (i + 1)) :=
   KV.KN.Adjust.stats_eq cfg full h2 hw hk hfix i hi
 
-/-- `countsOfCounts` (a fold of `OrderStat.add`) is what `Spec.stats` counts -/
+/-! ## … for every corpus -/
+
+open KV.KN.Norm in
+/-- **ngram_set**: the n-grams of order `n ≤ N` that lmplz has records for are exactly the
+length-`n` windows of the sentences delimited by ONE `<s>` and `</s>` (the lone `<s>` window
+excluded), plus — at order 1 — the explicit `<unk>` and `<s>`. -/
+theorem ngram_set (cfg : Cfg) (corpus : List (List Word)) (h2 : 2 ≤ cfg.order)
+    (hw : ∀ s ∈ corpus, ∀ w ∈ s, 3 ≤ w) (n : Nat) (h1 : 1 ≤ n) (hn : n ≤ cfg.order) (g : Gram) :
+    g ∈ (Spec.ents cfg (countFull cfg.order corpus) n).map (·.gram) ↔
+      (n = 1 ∧ (g = [unk] ∨ g = [bos])) ∨ ((∃ s ∈ corpus, g ∈ windows n (padded1 s)) ∧ g ≠ [bos]) :=
+  KV.KN.Norm.ngram_set_ents cfg corpus h2 hw n h1 hn g
+
+/-- the count table of every corpus of ordinary words is a legal input of `adjust_stream_eq` -/
+theorem fullWF_countFull (N : Nat) (corpus : List (List Word)) (h2 : 2 ≤ N)
+    (hw : ∀ s ∈ corpus, ∀ w ∈ s, 3 ≤ w) : KV.KN.Adjust.FullWF N (countFull N corpus) :=
+  KV.KN.Norm.fullWF_countFull N corpus h2 hw
+
+/-- `adjust_stream_eq` on the table lmplz actually counts, for every corpus -/
+theorem adjust_stream_eq_corpus (cfg : Cfg) (corpus : List (List Word)) (h2 : 2 ≤ cfg.order)
+    (hw : ∀ s ∈ corpus, ∀ w ∈ s, 3 ≤ w) (hk : cfg.keepSpecials = true) (n : Nat) (h1 : 1 ≤ n)
+    (hn : n < cfg.order) :
+    (adjustStream cfg (countFull cfg.order corpus)).stream n = Spec.ents cfg (countFull cfg.order corpus) n :=
+  KV.KN.Norm.adjust_stream_eq_corpus cfg corpus h2 hw hk n h1 hn
+
+/-- `stats_eq` for every corpus -/
+theorem stats_eq_corpus (cfg : Cfg) (corpus : List (List Word)) (h2 : 2 ≤ cfg.order)
+    (hw : ∀ s ∈ corpus, ∀ w ∈ s, 3 ≤ w) (hk : cfg.keepSpecials = true) (hfix : cfg.flushAdjusted = true)
+    (i : Nat) (hi : i + 1 < cfg.order) :
+    statsOf (adjustStream cfg (countFull cfg.order corpus)).adds.reverse i =
+      countsOfCounts (Spec.ents cfg (countFull cfg.order corpus) (i + 1)) :=
+  KV.KN.Norm.stats_eq_corpus cfg corpus h2 hw hk hfix i hi
+
+/-- the tree never count-prunes the special unigrams in the lower-order paths -/
 theorem keep_specials_tree : KV.Gen.C05.keepSpecials = true := by decide
 
 /-! ## discounts -/
